@@ -86,6 +86,8 @@ type Event struct {
 	Op    string `json:"op"`
 	Grp   int    `json:"grp"`
 	First bool   `json:"first"`
+	Plan  int    `json:"plan"`  // C11: index in the workload plan (0 = none)
+	Phase string `json:"phase"` // solo | conc | ""
 
 	// arguments
 	Secret B    `json:"secret"`
